@@ -86,6 +86,16 @@ theorem forward_step_is_ohm (vf θ tp tq r x : ℝ) (h : vf ≠ 0) :
   push_cast
   rw [add_mul, Complex.exp_add, mul_comm (exp (θ * I)), ← mul_assoc, Complex.norm_mul_exp_arg_mul_I, mul_comm]
 
+/-- … in particular **a line that carries no power at all passes the sending voltage on unchanged**: the receiving bus
+gets exactly the magnitude and angle of the sending bus (it is *set*, not left at whatever it held before). -/
+theorem forward_step_unloaded (vf θ r x : ℝ) (h : vf ≠ 0) :
+    ((Arith.sqrt (vmag2 vf 0 0 r x) : ℝ) : ℂ)
+        * exp (((θ + Arith.atan2 (vIm vf 0 0 r x) (vRe vf 0 0 r x) : ℝ) : ℂ) * I)
+      = (vf : ℂ) * exp (θ * I) := by
+  rw [forward_step_is_ohm vf θ 0 0 r x h]
+  have : (⟨0, 0⟩ : ℂ) = 0 := rfl
+  rw [this]; simp
+
 /-! ### Backward step: losses are r·|I|² -/
 
 /-- the loss booked on a line is r·|I|² for the current I = conj(S/V) of the delivered power at any
